@@ -176,8 +176,9 @@ class _FakePlt:
 
 
 @harness('C12', 'H2_encircled_energy', funcs=FUNCS, stubs=STUBS + ['matplotlib.pyplot replaced by a recorder (the curve is only produced by view())'],
-         cases=lambda tier: [dict(nf=1), dict(nf=2)],
-         bounds='1 or 2 fields, primary wavelength (second of two), caller-supplied 2-point distribution, 3 radii; intensities >= 0',
+         cases=lambda tier: [dict(nf=1)] + ([dict(nf=2)] if tier == 'thorough' else []), max_paths=600,
+         bounds='1 field (thorough: 2), primary wavelength (second of two), 3 rays per field landing on a line through their centroid at symbolic '
+                'distances (x = d0, d1, -(d0+d1); y = 0) with symbolic non-negative intensities, 3 radii',
          doc='the encircled-energy curve drawn by view() is, at each radius, the summed intensity of the rays of the primary wavelength within that '
              'distance of their centroid; it is non-decreasing and its last value is the total transmitted energy')
 def h2_encircled(ctx, nf):
@@ -185,10 +186,26 @@ def h2_encircled(ctx, nf):
     o, nums = slab(ctx)
     w2 = nums['ws'][1]
     calls = []
-    val = install_uf_tracer(ctx, o, calls=calls, positive_intensity=True)
-    pts = [(ctx.real('px0', lo=-1.0, hi=1.0), ctx.real('py0', lo=-1.0, hi=1.0)), (ctx.real('px1', lo=-1.0, hi=1.0), ctx.real('py1', lo=-1.0, hi=1.0))]
+    install_uf_tracer(ctx, o, calls=calls)
+    stub_trace = o.trace
     fields = [(0.0, 1.0)] if nf == 1 else [(0.0, 0.0), (0.0, 1.0)]
-    ee = em.EncircledEnergy(o, fields=fields if nf == 1 else 'all', num_rays=2, distribution=Points(ctx, pts), num_points=3)
+    spots = []
+    for i in range(nf):
+        d0, d1 = ctx.real(f'd0_{i}', lo=-10.0, hi=10.0), ctx.real(f'd1_{i}', lo=-10.0, hi=10.0)
+        es = [ctx.real(f'e{k}_{i}', lo=0.0, hi=1.0) for k in range(3)]
+        spots.append(([d0, d1, -(d0 + d1)], es))
+    made = []
+
+    def trace(Hx, Hy, wavelength, num_rays=100, distribution='hexapolar'):
+        r = stub_trace(Hx, Hy, wavelength, num_rays, distribution)
+        xs, es = spots[len(made) % nf]
+        made.append((Hx, Hy, wavelength))
+        last = o.surface_group.surfaces[-1]
+        last.x, last.y, last.intensity = ctx.arr(*xs), ctx.arr(0.0, 0.0, 0.0), ctx.arr(*es)
+        return r
+    o.trace = trace
+    pts = [(0.0, 0.0), (0.5, 0.0), (0.0, 0.5)]
+    ee = em.EncircledEnergy(o, fields=fields if nf == 1 else 'all', num_rays=3, distribution=Points(ctx, pts), num_points=3)
     fields = library_fields(ctx, ee.fields, fields)
     ctx.oblige('traces', len(calls) == nf)
     for c, H in zip(calls, fields):
@@ -202,30 +219,20 @@ def h2_encircled(ctx, nf):
         em.plt = orig
     plots = fake.ax.plots
     ctx.oblige('one_curve_per_field', len(plots) == nf)
-    # radii axis common to all fields: 0 .. 1.2 x the largest geometric radius
-    R2 = []
-    per = []
-    for H in fields:
-        xs = [val('x', LAST, H[0], H[1], p[0], p[1], w2) for p in pts]
-        ys = [val('y', LAST, H[0], H[1], p[0], p[1], w2) for p in pts]
-        es = [val('intensity', LAST, H[0], H[1], p[0], p[1], w2) for p in pts]
-        cx, cy = mean(xs), mean(ys)
-        r2 = [(x - cx) * (x - cx) + (y - cy) * (y - cy) for x, y in zip(xs, ys)]
-        R2 += r2
-        per.append((r2, es))
-    for (a, k), (r2, es) in zip(plots, per):
+    allr = [ctx.abs(x) for xs, _ in spots for x in xs]          # distances from the centroid (which is the origin by construction)
+    for (a, k), (xs, es) in zip(plots, spots):
         rs, curve = ctx.vals(a[0]), ctx.vals(a[1])
         ctx.oblige('three_radii', len(rs) == 3 and len(curve) == 3)
         if len(rs) != 3:
             return
         ctx.oblige('axis_from_zero', ctx.eq(rs[0], 0.0))
-        ctx.oblige('axis_reaches_beyond_every_ray', ctx.And(*[ctx.le(q, rs[2] * rs[2]) for q in R2]))
+        ctx.oblige('axis_reaches_beyond_every_ray', ctx.And(*[ctx.le(q, rs[2]) for q in allr]))
         ctx.oblige('axis_increasing', ctx.And(ctx.le(rs[0], rs[1]), ctx.le(rs[1], rs[2])))
         for m in range(3):
-            want = sum((ctx.If(q <= rs[m] * rs[m], e, 0.0) for q, e in zip(r2, es)), ctx.const(0.0))
+            want = sum((ctx.If(ctx.abs(x) <= rs[m], e, 0.0) for x, e in zip(xs, es)), ctx.const(0.0))
             ctx.oblige(f'energy_within_radius_{m}', ctx.eq(curve[m], want))
         ctx.oblige('non_decreasing', ctx.And(ctx.le(curve[0], curve[1]), ctx.le(curve[1], curve[2])))
-        ctx.oblige('reaches_total', ctx.eq(curve[2], es[0] + es[1]))
+        ctx.oblige('reaches_total', ctx.eq(curve[2], es[0] + es[1] + es[2]))
     ctx.observe('w2', w2)
 
 
